@@ -212,6 +212,113 @@ theorem nearest_defined (pts : List (List K)) (p : List K) (h : pts ≠ []) :
       obtain ⟨j, d⟩ := r
       by_cases hle : dist2 q p ≤ d <;> simp [hle]
 
+/-- **Nearest neighbour on separated grids, one axis**: the knot picked (SciPy's rule, ties to
+the lower index) is a closest knot. -/
+theorem nearestAxis_returns_closest : ∀ (knots : List K) (x : K) (i : Nat), StrictInc knots →
+    nearestAxis knots x = some i →
+    ∃ h : i < knots.length, ∀ y ∈ knots, (knots[i] - x) * (knots[i] - x) ≤ (y - x) * (y - x) := by
+  intro knots
+  induction knots with
+  | nil => intro x i _ h; simp [nearestAxis] at h
+  | cons a knots ih =>
+    intro x i hs h
+    match knots, hs, h with
+    | [], _, h => simp [nearestAxis] at h
+    | b :: rest, hs, h =>
+      have hab : a < b := hs.1
+      by_cases hc : a ≤ x ∧ x ≤ b
+      · have hc' : (decide (a ≤ x) && decide (x ≤ b)) = true := by simp [hc.1, hc.2]
+        simp only [nearestAxis, hc', if_true] at h
+        by_cases hm : (x - a) + (x - a) ≤ b - a
+        · simp only [hm, if_true, Option.some.injEq] at h
+          subst h
+          refine ⟨by simp, ?_⟩
+          intro y hy
+          simp only [List.getElem_cons_zero]
+          have e : (a - x) * (a - x) = (x - a) * (x - a) := by ring
+          rw [e]
+          rcases List.mem_cons.mp hy with rfl | hy
+          · exact le_of_eq e.symm
+          · have hby : b ≤ y := by
+              rcases List.mem_cons.mp hy with rfl | hy'
+              · exact le_refl _
+              · exact le_of_lt (knot_gt b rest hs.2 y hy')
+            exact mul_self_le_mul_self (by linarith [hc.1]) (by linarith)
+        · simp only [hm, if_false, Option.some.injEq] at h
+          subst h
+          refine ⟨by simp, ?_⟩
+          intro y hy
+          simp only [List.getElem_cons_succ, List.getElem_cons_zero]
+          push Not at hm
+          rcases List.mem_cons.mp hy with rfl | hy
+          · have e : (y - x) * (y - x) = (x - y) * (x - y) := by ring
+            rw [e]
+            exact mul_self_le_mul_self (by linarith [hc.2]) (by linarith)
+          · have hby : b ≤ y := by
+              rcases List.mem_cons.mp hy with rfl | hy'
+              · exact le_refl _
+              · exact le_of_lt (knot_gt b rest hs.2 y hy')
+            exact mul_self_le_mul_self (by linarith [hc.2]) (by linarith)
+      · have hc' : (decide (a ≤ x) && decide (x ≤ b)) = false := by
+          simp only [Bool.and_eq_false_iff, decide_eq_false_iff_not]; tauto
+        simp only [nearestAxis, hc', Bool.false_eq_true, if_false] at h
+        cases hr : nearestAxis (b :: rest) x with
+        | none => rw [hr] at h; simp at h
+        | some j =>
+          rw [hr] at h
+          simp only [Option.map_some, Option.some.injEq] at h
+          subst h
+          obtain ⟨hj, hmin⟩ := ih x j hs.2 hr
+          have hbx : b ≤ x := nearestAxis_ge_head rest b x j hs.2 hr
+          refine ⟨by simpa using hj, ?_⟩
+          intro y hy
+          simp only [List.getElem_cons_succ]
+          rcases List.mem_cons.mp hy with rfl | hy
+          · have h1 := hmin b (by simp)
+            have e : (y - x) * (y - x) = (x - y) * (x - y) := by ring
+            have e2 : (b - x) * (b - x) = (x - b) * (x - b) := by ring
+            rw [e]
+            refine le_trans h1 ?_
+            rw [e2]
+            exact mul_self_le_mul_self (by linarith) (by linarith)
+          · exact hmin y hy
+
+/-- **Nearest neighbour on separated grids, any dimension**: the grid point assembled from the
+per-axis choices is at minimal squared distance among *all* grid points. -/
+theorem nearest_separated_returns_closest : ∀ (axes : List (List K)) (p : List K) (idx : List Nat),
+    (∀ ax ∈ axes, StrictInc ax) → nearestIdx axes p = some idx →
+    ∀ q ∈ tensorPts axes, dist2 (pointAt axes idx) p ≤ dist2 q p := by
+  intro axes
+  induction axes with
+  | nil =>
+    intro p idx _ h q hq
+    cases p with
+    | nil => simp [nearestIdx] at h; subst h; simp [tensorPts] at hq; subst hq; simp [pointAt]
+    | cons x p => simp [nearestIdx] at h
+  | cons ax rest ih =>
+    intro p idx hs h q hq
+    cases p with
+    | nil => simp [nearestIdx] at h
+    | cons x p =>
+      simp only [nearestIdx] at h
+      cases h1 : nearestAxis ax x with
+      | none => rw [h1] at h; simp at h
+      | some i =>
+        cases h2 : nearestIdx rest p with
+        | none => rw [h1, h2] at h; simp at h
+        | some idx' =>
+          rw [h1, h2] at h
+          simp only [Option.some.injEq] at h
+          subst h
+          obtain ⟨hi, hmin⟩ := nearestAxis_returns_closest ax x i (hs ax (by simp)) h1
+          simp only [tensorPts, List.mem_flatMap, List.mem_map] at hq
+          obtain ⟨t, ht, q', hq', rfl⟩ := hq
+          have := ih p idx' (fun a ha => hs a (by simp [ha])) h2 q' hq'
+          simp only [pointAt, dist2_cons]
+          have hg : ax.getD i 0 = ax[i] := by simp [List.getD_eq_getElem?_getD, List.getElem?_eq_getElem hi]
+          rw [hg]
+          exact add_le_add (hmin t ht) this
+
 /-! ## binning -/
 
 /-- **`statistic='sum'` conserves the total**, any shape, any factor. -/
